@@ -1,7 +1,7 @@
 ------------------------------ MODULE MC_C11 ------------------------------
 (***************************************************************************)
 (* C11 -- allOf is conjunction and anyOf is disjunction for object schemas.   *)
-(* Units: every ordered list of 1..3 distinct branches out of seven branch     *)
+(* Units: every ordered list of 1..3 distinct branches out of eight branch     *)
 (* templates (disjoint and overlapping property sets; the same keyword or a    *)
 (* different keyword on an overlapping property; a conflicting type; a          *)
 (* required-only branch; a branch without any validator) x {allOf, anyOf} x     *)
@@ -25,8 +25,9 @@ Branches == <<
   O(<<[k |-> "p", s |-> Int_ @@ ("minimum" :> JNum(12))]>>, <<"p">>),                                  \* D  p >= 3
   O(<<[k |-> "p", s |-> [type |-> <<"string">>]]>>, <<"p">>),                                          \* E  p string
   [required |-> <<"q">>],                                                                              \* F  required only
-  O(<<[k |-> "r", s |-> [type |-> <<"boolean">>]]>>, <<>>) >>                                          \* G  no validator
-NB == 7
+  O(<<[k |-> "r", s |-> [type |-> <<"boolean">>]]>>, <<>>),                                           \* G  no validator
+  O(<<[k |-> "q", s |-> [type |-> <<"string">>, maxLength |-> 1]]>>, <<>>) >>                          \* H  q short, optional
+NB == 8
 Lists == {<<i>> : i \in 1..NB} \cup {<<i, j>> : i \in 1..NB, j \in 1..NB} \cup {<<i, j, k>> : i \in 1..NB, j \in 1..NB, k \in 1..NB}
 Distinct(l) == \A i, j \in DOMAIN l : i # j => l[i] # l[j]
 
@@ -38,7 +39,7 @@ Docs == LET mk(i, j, k) == JObj( (IF i = 1 THEN <<>> ELSE <<KV("p", PV[i])>>) \o
         IN SetToSeq({mk(i, j, k) : i \in DOMAIN PV, j \in DOMAIN QV, k \in DOMAIN RV})
 Wrap(x) == JObj(<<KV("x", x)>>)
 
-DefName(i) == <<"BA", "BB", "BC", "BD", "BE", "BF", "BG">>[i]
+DefName(i) == <<"BA", "BB", "BC", "BD", "BE", "BF", "BG", "BH">>[i]
 Unit(c, f, l) ==
   LET byRef(pos) == f = "ref" \/ (f = "firstref" /\ pos = 1)
       br == [pos \in DOMAIN l |-> IF byRef(pos) THEN [ref |-> [k |-> "defs", n |-> DefName(l[pos])]] ELSE Branches[l[pos]]]
@@ -55,15 +56,29 @@ Unit(c, f, l) ==
       schema |-> ("type" :> <<"object">>) @@ ("properties" :> <<[k |-> "x", s |-> xs]>>) @@ ("required" :> <<"x">>),
       defs |-> defs, docs |-> [i \in DOMAIN Docs |-> Wrap(Docs[i])], nobuild |-> nb]
 
-u == Unit(comb, form, lst)
-Set == lst # <<0>>
+\* anyOf whose branches are maps (objects without properties, typed additionalProperties): the branch
+\* types are declared MAP types with their own unmarshaler
+MapI == [type |-> <<"object">>, additionalProperties |-> [k |-> "s", s |-> Int_]]
+MapS == [type |-> <<"object">>, additionalProperties |-> [k |-> "s", s |-> [type |-> <<"string">>]]]
+MapUnit(l) ==
+  LET br == [i \in DOMAIN l |-> IF l[i] = 1 THEN MapI ELSE MapS]
+      docs == << JObj(<<>>), JObj(<<KV("a", JNum(4))>>), JObj(<<KV("a", JNum(4)), KV("b", JNum(8))>>),
+                 JObj(<<KV("a", JNum(8)), KV("b", JStr(<<"a">>))>>), JObj(<<KV("a", JStr(<<"a">>))>>),
+                 JObj(<<KV("a", JNum(4)), KV("b", JBool(TRUE))>>) >>
+  IN [prop |-> "C11", comb |-> "anyOfMaps", form |-> "inline",
+      schema |-> ("type" :> <<"object">>) @@ ("properties" :> <<[k |-> "x", s |-> [anyOf |-> br]]>>) @@ ("required" :> <<"x">>),
+      defs |-> <<>>, docs |-> [i \in DOMAIN docs |-> Wrap(docs[i])], nobuild |-> <<>>]
 
-ImplAccepts(unit, d, D) ==
-  LET x == ObjVal(d, "x")  xs == unit.schema.properties[1].s IN
-  IF unit.comb = "allOf" THEN ImplAllOf(unit.defs, xs.allOf, x, D) ELSE ImplAnyOf(unit.defs, xs.anyOf, x, D)
+u == IF comb = "anyOfMaps" THEN MapUnit(lst) ELSE Unit(comb, form, lst)
+Set == lst # <<0>>
 
 RefVerdict(unit, d)    == Valid(unit.defs, unit.schema, d, {}, "decl", NoLim)
 DevVerdict(unit, d, D) == Valid(unit.defs, unit.schema, d, D, "decl", NoLim)
+
+ImplAccepts(unit, d, D) ==
+  LET x == ObjVal(d, "x")  xs == unit.schema.properties[1].s IN
+  IF unit.comb = "anyOfMaps" THEN DevVerdict(unit, d, D) = Acc     \* no implementation-shaped model yet
+  ELSE IF unit.comb = "allOf" THEN ImplAllOf(unit.defs, xs.allOf, x, D) ELSE ImplAnyOf(unit.defs, xs.anyOf, x, D)
 
 Agree(unit, D) ==
   \A i \in DOMAIN unit.docs :
@@ -73,8 +88,11 @@ Agree(unit, D) ==
 DesignOK == Set => LET unit == u IN Agree(unit, {})
 AsIsOK   == Set => LET unit == u IN Agree(unit, Devs)
 
-Init == comb \in {"allOf", "anyOf"} /\ form \in {"inline", "ref", "firstref"} /\ lst = <<0>>
-Pick == lst = <<0>> /\ lst' \in {l \in Lists : Distinct(l)} /\ UNCHANGED <<comb, form>>
+Init == \/ comb \in {"allOf", "anyOf"} /\ form \in {"inline", "ref", "firstref"} /\ lst = <<0>>
+        \/ comb = "anyOfMaps" /\ form = "inline" /\ lst = <<0>>
+Pick == /\ lst = <<0>>
+        /\ lst' \in (IF comb = "anyOfMaps" THEN {<<1>>, <<1, 2>>, <<2, 1>>} ELSE {l \in Lists : Distinct(l)})
+        /\ UNCHANGED <<comb, form>>
 Next == Pick
 Spec == Init /\ [][Next]_vars
 
